@@ -1835,6 +1835,7 @@ demux_ts_packet			(vbi_dvb_demux *	dx,
 			/* Got all data from this TS packet. */
 			dx->ts_wrap.consume = 0;
 
+		pes_packet_complete:
 			if (0 == dx->ts_pes_todo) {
 				const uint8_t *p;
 				unsigned int left;
@@ -2203,6 +2204,11 @@ demux_ts_packet			(vbi_dvb_demux *	dx,
 			lookahead = MIN (lookahead, TS_HEADER_LOOKAHEAD);
 			dx->ts_wrap.lookahead =
 				TS_HEADER_LOOKAHEAD - lookahead;
+
+			/* A PES packet contained in this one TS packet
+			   is complete already. */
+			if (0 == dx->ts_pes_todo)
+				goto pes_packet_complete;
 		}
 
 		continue;
